@@ -54,7 +54,8 @@ def canon_expected(v):
     return [v[0]] + [canon_expected(x) for x in v[1:]]
 
 MODS = ["x := 10\nreturn {v: x, f: func(a) { return a + x }}\n",
-        "m1 := import(\"m1\")\nreturn {g: func() { return m1.f(1) }, bad: func() { return [][1] }}\n"]
+        "m1 := import(\"m1\")\nreturn {g: func() { return m1.f(1) }, bad: func() { return [][1] }}\n",
+        "[1][5]\n", "throw \"first byte of a module\""]
 
 def run(rep, br, proofs, rng, tier):
     nv = 1500 if tier == "quick" else 30000
@@ -99,7 +100,10 @@ def run(rep, br, proofs, rng, tier):
              "m := import(\"m2\")\nreturn m.bad()\n",
              "v := import(\"vmod\")\nreturn [v.k, v.name, v.pi, v.flag, v.ch, v.raw, v.u, v.nothing, v.inc(1), v.ns.triple(7), v.ns.depth.inc(1), v.ns.n, v.arr[0](2), v.arr[1], v.arr[2][0](3), v.sm.triple(5)]\n",
              "v := import(\"vmod\")\nf := func() { w := import(\"vmod\"); return w.ns.triple(2) + v.arr[2][0](1) }\nreturn f()\n",
-             "f := func() { return func() { return [1][5] } }\nreturn f()()\n"]
+             "f := func() { return func() { return [1][5] } }\nreturn f()()\n",
+             # errors whose position is the very first or the very last byte of a file, in the main file and in imported ones
+             "throw \"boom\"\n", "[1][5]\n", "[1][5]", "x := 1\nimport(\"m3\")\n", "import(\"m3\")", "y := import(\"m1\")\nimport(\"m4\")",
+             "import(\"m4\")\n", "z := import(\"m2\")\nw := import(\"m1\")\nreturn z.bad()", "x := 1\nthrow x"]
     progs += [g.program() for _ in range(np_)]
     pcases = [mk_case("p%d" % i, "encprog", hexs(s.encode()), *[hexs(m.encode()) for m in MODS]) for i, s in enumerate(progs)]
     impl_p, _ = vlib.run_impl([c["line"] for c in pcases], timeout=2400)
